@@ -251,6 +251,8 @@ func newC15Env(c *core.Ctx, p c15Params) (*c15Env, error) {
 	e.svc.Handle("qm.$id", res.Model, h("model"), res.Group("gm.${id}"))
 	e.svc.Handle("qc.$id", res.Collection, h("collection"))
 	e.svc.Handle("shared.$id", res.Collection, h("collection"), res.Group("sharedgroup"))
+	// the resource named like the service (root pattern, default group = its name)
+	e.svc.Handle("", res.Collection, h("collection"))
 	served := make(chan struct{})
 	e.svc.SetOnServe(func(*res.Service) { close(served) })
 	go func() { e.serveR <- e.svc.Serve(nc) }()
@@ -1163,6 +1165,9 @@ func c15Barrage(c *core.Ctx, env *c15Env, p c15Params, round int) bool {
 			// the query events of the round belong to resources of one group: their callbacks,
 			// passed on by one listener goroutine per event, still run one at a time
 			rid = fmt.Sprintf("svc.shared.b%dn%d", round, i)
+		}
+		if i == 0 && round%4 == 2 && !p.Shared {
+			rid = "svc" // the service's root resource
 		}
 		behaviour := "events"
 		if !(round%2 == 1 || p.Shared) {
